@@ -1,6 +1,7 @@
 package main
 
 import (
+	"fmt"
 	"math/big"
 
 	"github.com/skycoin/skycoin/src/cipher"
@@ -128,6 +129,48 @@ func templates() []tmpl {
 		}
 		return build([]coin.UxOut{*a, *b}, []cipher.SecKey{idA.Sec, idA.Sec}, []outSpec{{idA.Addr, a.Body.Coins + b.Body.Coins, (ha + hb) / 2}})
 	})
+	// the "ladder" (root of the 1 KiB-block world): G pays five outputs of 1, 10, 100, 1000, 10000 coins with 1000 hours each to U;
+	// ladder-k spends the k-th of them (2 outputs, ~220 bytes) with fee ceil(hours/2)+4-k: the fee per kB falls as the coins rise
+	add("ladder-fanout", func(m *ledger.Model) *coin.Transaction {
+		ux := firstOut(m, idG, 0)
+		if ux == nil || len(m.OutputsOf(idU.Addr)) > 0 {
+			return nil
+		}
+		avail, ok := accruedU64(m, *ux)
+		if !ok || avail < 20000 || ux.Body.Coins < 20000e6 {
+			return nil
+		}
+		outs := []outSpec{}
+		var sum uint64
+		for _, c := range []uint64{1e6, 10e6, 100e6, 1000e6, 10000e6} {
+			outs = append(outs, outSpec{idU.Addr, c, 1000})
+			sum += c
+		}
+		outs = append(outs, outSpec{idG.Addr, ux.Body.Coins - sum, avail/2 - 5000})
+		return build([]coin.UxOut{*ux}, []cipher.SecKey{idG.Sec}, outs)
+	})
+	for k := 0; k < 5; k++ {
+		k := k
+		add(fmt.Sprintf("ladder-%d", k), func(m *ledger.Model) *coin.Transaction {
+			want := []uint64{1e6, 10e6, 100e6, 1000e6, 10000e6}[k]
+			for _, ux := range m.OutputsOf(idU.Addr) {
+				if ux.Body.Coins != want {
+					continue
+				}
+				avail, ok := accruedU64(m, ux)
+				if !ok || avail < 100 {
+					return nil
+				}
+				fee := (avail+1)/2 + uint64(4-k)
+				rest := avail - fee
+				if want == 1e6 {
+					return build([]coin.UxOut{ux}, []cipher.SecKey{idU.Sec}, []outSpec{{idC.Addr, want, rest}})
+				}
+				return build([]coin.UxOut{ux}, []cipher.SecKey{idU.Sec}, []outSpec{{idC.Addr, want / 2 / 1e6 * 1e6, rest / 2}, {idU.Addr, want - want/2/1e6*1e6, rest - rest/2}})
+			}
+			return nil
+		})
+	}
 	// fund the locked distribution address, then try to spend from it (soft: locked)
 	add("pay-G-L", func(m *ledger.Model) *coin.Transaction { return pay(m, idG, idL, 0, nil, 1, 8, nil) })
 	add("pay-L-A", func(m *ledger.Model) *coin.Transaction { return pay(m, idL, idA, 0, nil, 1, 2, nil) })
